@@ -307,6 +307,24 @@ def cli_scope(res, pid, rng, tier):
     if runs_hb[1][2] != runs_hb[3][2]:
         fails.append({"kind": "a run does not preserve the number of host bits it was given (default 8)", "detail": "two runs with the same options differ",
                       "argv": ["-a", "-s", "samesalt"], "outputs": [runs_hb[1][2], runs_hb[3][2]]})
+    # real runs: every anonymization option alone is an anonymization option (the output file is written and the option has its effect)
+    one = "hostname acme-gw\nrouter bgp 65001\nusername bob password 0 hunter2abc\nip address 12.34.56.78 255.255.255.0\n"
+    for argv1, gone in ((["-n", "65001"], "65001"), (["-w", "acme"], "acme"), (["-p"], "hunter2abc"), (["-a"], "12.34.56.78")):
+        s_, o_, _ = run_cli(["-s", "only"] + argv1, {"a.cfg": one})
+        res.evaluations += 1
+        if s_ != "ok" or gone in (o_.get("a.cfg") or gone):
+            fails.append({"kind": "a single anonymization option on the command line does not produce its output", "argv": ["-s", "only"] + argv1,
+                          "status": s_, "output": o_.get("a.cfg")})
+    # real runs: the default of 8 host bits holds for both families as the library understands it
+    from netconan.ip_anonymization import IpV6Anonymizer as _A6, IpAnonymizer as _A4
+    import ipaddress as _ipa
+    s_, o_, _ = run_cli(["-a", "-s", "hb6"], {"a.cfg": "ipv6 address 2001:db8:1234:5678:9abc:def0:1234:5678/64\nip address 12.34.56.78\n"})
+    res.evaluations += 1
+    w6 = str(_ipa.IPv6Address(_A6("hb6", preserve_suffix=8).anonymize(int(_ipa.IPv6Address("2001:db8:1234:5678:9abc:def0:1234:5678")))))
+    w4 = str(_ipa.IPv4Address(_A4("hb6", preserve_suffix=8).anonymize(int(_ipa.IPv4Address("12.34.56.78")))))
+    if s_ != "ok" or (o_.get("a.cfg") or "") != "ipv6 address %s/64\nip address %s\n" % (w6, w4):
+        fails.append({"kind": "a run does not preserve the number of host bits it was given (default 8)", "argv": ["-a", "-s", "hb6"],
+                      "output": o_.get("a.cfg"), "library_with_8_host_bits": [w6, w4]})
     # real runs: rejected combinations and the no-option case write nothing
     for argv in (["-u"], ["-u", "-a", "-s", "x"], ["-d", "map"], ["-a", "--preserve-host-bits", "33"], [], ["-u", "-p"], ["-d", "map", "-p", "-u", "-s", "q"]):
         d = tempfile.mkdtemp(prefix="ncverif_")
